@@ -110,6 +110,17 @@ func c14Run(kind string, fam []string, pre []string, src string, dsides string, 
 			_ = vm.Run(p)
 		}()
 	}
+	// histories: a third of the cases evaluate the SAME source once before (other generator state) and read its process text,
+	// as a bot re-rolling an expression does; the observed run below must explain ITS result, not the earlier one's
+	if hi%3 == 0 {
+		func() {
+			defer func() { recover() }()
+			vm.RandSrc = mkSrc(lo|1, hi)
+			if vm.Run(src) == nil {
+				_ = vm.GetDetailText()
+			}
+		}()
+	}
 	// the prelude consumed no randomness in the fragment stream; reseed so that the row's seed is the state the
 	// expression starts from
 	vm.RandSrc = mkSrc(hi, lo)
